@@ -119,9 +119,11 @@ impl LunarYear {
   pub fn get_months(&self) -> Vec<LunarMonth> {
     let mut l: Vec<LunarMonth> = Vec::new();
     let mut m: LunarMonth = LunarMonth::from_ym(self.year, 1);
-    while m.get_year() == self.year {
-      l.push(m);
+    l.push(m);
+    // step inside the year only: the month after the last one may lie in the unsupported year 10000
+    for _ in 1..self.get_month_count() {
       m = m.next(1);
+      l.push(m);
     }
     l
   }
